@@ -10,7 +10,7 @@ pub const TOK_FRAGMENTS: &[&str] = &[
     " x='y'", " x=\"y\"", " X=1", " x", "/>", "&amp;", "&amp", "&lt", "&not", "&notin;", "&noti", "&#", "&#x", "&#65;",
     "&#x41", "&#0;", "&#128;", "&#xD800;", "&#1114112;", "&AElig", "&Aacute=", "&copy1", "\t", "\n", "\r", "\r\n",
     "\x0C", " ", "\0", "a", "A", "z", "é", "\u{FEFF}", "😁", "x", "scr", "ipt", "TITLE", "`", "<?", "<?xml ?>", "</ >", "</",
-    "</title/>", "</script/>", "</style/>", "</textarea/>", "</xmp/ x>", "</title x=y>", "</script\t>", "</TITLE/>", "<!x>", "<!-", "<!->", "<!--->", "<!---->", "<!-- <!-- -->", "--!", "<![", "<![cdata[", "]]", "PUBLIC", "system",
+    "&#x100000041;", "&#4294967361;", "&#x0000000041;", "&#99999999999;", "</title/>", "</script/>", "</style/>", "</textarea/>", "</xmp/ x>", "</title x=y>", "</script\t>", "</TITLE/>", "<!x>", "<!-", "<!->", "<!--->", "<!---->", "<!-- <!-- -->", "--!", "<![", "<![cdata[", "]]", "PUBLIC", "system",
 ];
 
 /// Token soup: fragments that exercise every tokenizer state, glued together,
